@@ -22,6 +22,13 @@ clause tokens (`:`-separated, `-` = absent; id = kind letter + number, e.g. `C3`
   ss:<ref>:<r|t>:<a|r|t|->                       ARCHIVE (r) / TOMBSTONE (t) [EXPECT STATE]
   pg:<ref>:<bad>                                 PURGE … CONFIRM "PURGE"  (bad: refused while staged — still referenced)
   rt:<ref>:<0|1|->                               RETRACT ASSERTION [EXPECT STATE active (0) / retracted (1)]
+  su:<ref>:<ref>:<status|->                      SUPERSEDE ASSERTION old BY new [EXPECT STATE]
+  co:<ref>:<ref>                                 CORRECT EVIDENCE old BY new
+  tr:<ref>:<status>:<status|->                   TRANSITION ACTIVITY target TO status [EXPECT STATE]
+  sr:<ref>:<v>:<expect|->                        SET RETENTION target {retention_class: "r<v>"} [EXPECT VERSION]
+status codes: 0 as created (active / an Activity's pending), 1 retracted, 2 empty (identity stub), 3 superseded,
+4 corrected, 5 running, 6 completed, 7 failed
+an element is printed as id/version/state/ty/key/val.att.fac.ret.links/pay/tuple/seq (links `_`-separated, `0` = none)
 -/
 open AndaVerif.Tx AndaVerif.Drv
 
@@ -91,6 +98,14 @@ def parseClause (tok : String) : Option Clause :=
       pure (.purge (← parseRef t) (← parseBool bad))
   | ["rt", t, ex] => do
       pure (.retract (← parseRef t) (← parseOptNat ex))
+  | ["su", t, b, ex] => do
+      pure (.supersede (← parseRef t) (← parseRef b) (← parseOptNat ex))
+  | ["co", t, b] => do
+      pure (.correct (← parseRef t) (← parseRef b))
+  | ["tr", t, to, ex] => do
+      pure (.transition (← parseRef t) (← to.toNat?) (← parseOptNat ex))
+  | ["sr", t, v, ex] => do
+      pure (.setRetention (← parseRef t) (← v.toNat?) (← parseOptNat ex))
   | ["ss", t, to, ex] => do
       let ex ← if ex = "-" then some none else (parseSt ex).map some
       pure (.setState (← parseRef t) (← parseSt to) ex)
@@ -104,6 +119,7 @@ def showSt : St → String
 
 def showOp : Op → String
   | .create => "create" | .update => "update" | .archive => "archive" | .tombstone => "tombstone" | .retract => "retract" | .purge => "purge"
+  | .supersede => "supersede" | .correct => "correct" | .transition => "transition" | .setRetention => "set_retention"
 
 def showErr : Err → String
   | .dupHandle => "invalid" | .invalid => "invalid" | .unknownHandle => "invalid" | .notFound => "notfound"
@@ -132,8 +148,10 @@ def showTup : Option (Id × Nat × Id) → String
   | none => "-"
   | some (a, p, b) => s!"{showId a}>{p}>{showId b}"
 
+def showLinks (l : List Nat) : String := if l.isEmpty then "0" else "_".intercalate (l.map toString)
+
 def showElem (i : Id) (e : Elem) : String :=
-  s!"{showId i}/{e.version}/{showSt e.state}/{e.row.ty}/{e.row.key}/{e.row.val}.{e.row.att}.{e.row.fac}/{e.row.pay}/{showTup e.row.tup}/{e.seq}"
+  s!"{showId i}/{e.version}/{showSt e.state}/{e.row.ty}/{e.row.key}/{e.row.val}.{e.row.att}.{e.row.fac}.{e.row.ret}.{showLinks e.row.links}/{e.row.pay}/{showTup e.row.tup}/{e.seq}"
 
 def allIds (s : Store) : List Id := Kind.all.flatMap (idsOf s)
 
